@@ -473,7 +473,7 @@ impl<'s> Lexer<'s> {
             return ControlFlow::Continue(());
         }
 
-        tail = &tail[1..];
+        tail = &tail[c.len_utf8()..];
         tail.eat_while(|c: &char| is_xid_continue(*c));
 
         let (ident, span) = self.bump_to(tail);
